@@ -13,6 +13,7 @@ import (
 	"github.com/cosmos/cosmos-proto/internal/verifsim/simrun"
 	"github.com/cosmos/cosmos-proto/testpb"
 	"google.golang.org/protobuf/proto"
+	"google.golang.org/protobuf/reflect/protoreflect"
 )
 
 var corpus = []proto.Message{
@@ -82,6 +83,18 @@ func main() {
 		}
 	}
 	simrun.Main(e)
+}
+
+var anyTargetCache []protoreflect.MessageDescriptor
+
+// anyTargets lists the corpus types an Any field may pack.
+func anyTargets() []protoreflect.MessageDescriptor {
+	if anyTargetCache == nil {
+		for _, m := range corpus {
+			anyTargetCache = append(anyTargetCache, m.ProtoReflect().Descriptor())
+		}
+	}
+	return anyTargetCache
 }
 
 func clip(s string, n int) string {
